@@ -104,6 +104,7 @@ package proxy
 //@ func (*ReverseProxy).ServeHTTP
 //@   may_panic
 //@ func createUpstreamRequest
+//@   requires [request_with_headers] r != nil && r.Header != nil
 //@   ensures result0 != nil
 //@ extern net/url.Parse
 //@   ensures result1 == nil ==> result0 != nil
@@ -134,7 +135,7 @@ package proxy
 //@ axiom (e error, t error) (tl(e, t) == 1) == errors.Is(e, t)
 //@ func (Proxy).ServeHTTP
 //@   may_panic
-//@   requires r != nil && w != nil && lastBuffered == 0 && lastTooLarge == 0
+//@   requires r != nil && r.Header != nil && w != nil && lastBuffered == 0 && lastTooLarge == 0
 //@   at call (*ReverseProxy).ServeHTTP do lastTooLarge = tl(result, httpserver.ErrMaxBytesExceeded)
 //@   ensures [body_too_large_is_413] lastTooLarge == 1 ==> result0 == 413
 //@   at call newBufferedBody do lastBuffered = result0
